@@ -84,16 +84,20 @@ func (b *Blockstore) Has(ctx context.Context, cid cid.Cid) (bool, error) {
 	return has, nil
 }
 
+// errReadOnly is returned by the mutating methods: the Blockstore is a read-only view over the EDS
+// store, which is filled through the store itself.
+var errReadOnly = errors.New("shwap/bitswap: blockstore is read-only")
+
 func (b *Blockstore) Put(context.Context, blocks.Block) error {
-	panic("not implemented")
+	return errReadOnly
 }
 
 func (b *Blockstore) PutMany(context.Context, []blocks.Block) error {
-	panic("not implemented")
+	return errReadOnly
 }
 
 func (b *Blockstore) DeleteBlock(context.Context, cid.Cid) error {
-	panic("not implemented")
+	return errReadOnly
 }
 
 func (b *Blockstore) AllKeysChan(context.Context) (<-chan cid.Cid, error) { panic("not implemented") }
